@@ -612,8 +612,24 @@ def family_overlay(tier):
                         yield specs, ('series_overlay', c % 3 != 0, c % 7 == 0, c % 2 == 0)
 
 
+def family_empty_inputs(tier):
+    """inputs without any label on the aligned axis in leading / middle / trailing positions: the labels (and cells) of the other inputs all survive"""
+    full = ('a', 'b', 'c')
+    c = 0
+    for kind in 'fOi':
+        for shape in ((0, 0, 1), (0, 1, 0), (1, 0, 0), (0, 0, 0, 1), (0, 1, 0, 1), (0, 0, 1, 1), (0, 1), (1, 0)):
+            for miss in (0, 2):
+                c += 1
+                specs = [sspec(k, full if flag else (), kind, 'nm', miss=(miss if flag and kind in NULLABLE else 0)) for k, flag in enumerate(shape)]
+                yield specs, ('series_overlay', c % 3 != 0, False, c % 2 == 0)
+    for shape in ((0, 0, 1), (0, 1, 0), (1, 0, 0), (0, 0, 1, 1)):
+        c += 1
+        specs = [fspec(k, ('a', 'b') if flag else (), ('x', 'y') if flag else (), 'ff' if flag else '', layout=0, miss=(5 if flag else 0)) for k, flag in enumerate(shape)]
+        yield specs, ('frame_overlay', True, False, c % 2 == 0)
+
+
 def cases(tier):
-    return itertools.chain(family_series(tier), family_align(tier), family_layout(tier), family_overlay(tier))
+    return itertools.chain(family_empty_inputs(tier), family_series(tier), family_align(tier), family_layout(tier), family_overlay(tier))
 
 
 def run(repo, task):
